@@ -72,7 +72,44 @@ def plan(tier, seed):
         if rnd.random() < 0.6: pl = {"kind": "xml-attr", "name": "xa", "map": {"el": {"k": "NEW", "added": "1"}}}; cm = "vf:python/xa"
         else: pl = {"kind": "xml-new", "name": "xn", "elements": [{"name": "added", "parent": "root", "content": "c", "attributes": {"q": "1"}}]}; cm = "vf:python/xn"
         jobs.append({"id": f"xml{k}", "kind": pl["kind"], "doc": doc, "dry": dry, "files": {"d.xml": b64(doc.encode())}, "plugins": [pl], "argv": base + ["--codemod-include", cm] + (["--dry-run"] if dry else []), "monitors": {"snap": False}, "want_before": True})
+    # SAST-driven XML: sibling target elements at the SAME indentation on different lines, findings (exact line and column of '<', or line only) on a subset
+    for k in range(30 if tier == "quick" else 400):
+        n = rnd.randint(3, 6); indent = "  " * rnd.randint(1, 2)
+        lines = ['<?xml version="1.0" encoding="utf-8"?>', "<root>"]
+        els = []
+        for i in range(n):
+            if rnd.random() < 0.3: lines.append(f"{indent}<other id=\"{i}\"/>")
+            lines.append(f"{indent}<el k=\"v{i}\">t{i}</el>"); els.append(len(lines))
+        lines.append("</root>")
+        doc = "\n".join(lines) + "\n"
+        sub = sorted(rnd.sample(els, rnd.randint(0, len(els) - 1)))
+        line_only = rnd.random() < 0.4
+        findings = [{"file": "d.xml", "line": ln, "col": (len(indent) + 1) if not line_only else 1, "ecol": len(indent) + 4, "id": f"F-{ln}"} for ln in sub]
+        dry = rnd.random() < 0.2
+        jobs.append({"id": f"sxml{k}", "kind": "sast-xml-attr", "doc": doc, "dry": dry, "targets": els, "reported": sub, "files": {"d.xml": b64(doc.encode())},
+                     "plugins": [{"kind": "sast-xml-attr", "name": "sxa", "map": {"el": {"k": "NEW"}}, "findings": findings, "line_only": line_only}],
+                     "argv": base + ["--codemod-include", "vfsast:python/sxa"] + (["--dry-run"] if dry else []), "monitors": {"snap": False}, "want_before": True})
     return jobs
+
+def judge_sast_xml(job, run, css):
+    v = []; st = collections.Counter(); nt = []
+    w = {"case": job["id"], "kind": job["kind"], "doc": job["doc"], "reported_lines": job["reported"], "target_lines": job["targets"]}
+    cs = css.get("d.xml"); after = unb(run["tree"]["d.xml"][2:]).decode("utf-8")
+    got_lines = sorted(c["lineNumber"] for c in cs["changes"]) if cs else []
+    if job["reported"]: nt.append(job["id"])
+    st["sast_xml_cases"] += 1
+    if got_lines != job["reported"]: v.append(Violation("C19", "sast-xml/changes-differ-from-findings", f"change entries on lines {got_lines}, findings on lines {job['reported']}", dict(w, after=after)))
+    if not job["dry"]:
+        edited = [i + 1 for i, (a, b) in enumerate(zip(job["doc"].splitlines(), after.splitlines())) if a != b and "<el" in a]
+        alines = after.splitlines()
+        edited = [ln for ln in job["targets"] if any('k="NEW"' in l for l in alines if f">t{job['targets'].index(ln)}<" in l)]
+        if edited != job["reported"]: v.append(Violation("C19", "sast-xml/elements-edited-differ-from-findings", f"elements edited on lines {edited}, findings on lines {job['reported']}", dict(w, after=after)))
+    elif run["tree"] != run["before_tree"]: v.append(Violation("C19", "dry-run-wrote/sast-xml-attr", "pipeline wrote in --dry-run", w))
+    if cs:
+        for c in cs["changes"]:
+            ids = sorted(f["id"] for f in (c.get("findings") or []))
+            if ids != [f"F-{c['lineNumber']}"] and c["lineNumber"] in job["reported"]: v.append(Violation("C19", "sast-xml/findings-of-change", f"line {c['lineNumber']}: change carries {ids}", w))
+    return v, st, nt
 
 def judge(job, res):
     v = []; st = collections.Counter(); nt = []
@@ -81,6 +118,7 @@ def judge(job, res):
         v.append(Violation("C19", f"run-failed/{job['kind']}", f"rc={run['rc']} exc={run['exc']}", dict(w, log=run["log"][-500:]))); return v, st, nt
     css = {cs["path"]: cs for r in run["report"]["results"] for cs in r["changeset"]}
     if job["dry"] and run["tree"] != run["before_tree"]: v.append(Violation("C19", f"dry-run-wrote/{job['kind']}", "pipeline wrote in --dry-run", w))
+    if job["kind"] == "sast-xml-attr": return judge_sast_xml(job, run, css)
     if job["kind"] in ("regex", "sast-regex"):
         for n, t in job["texts"].items():
             lines = t.splitlines(keepends=True); flines = {f["line"] for f in job.get("findings", []) if f["file"] == n}
